@@ -250,7 +250,7 @@ def one_trace(tid, kind, mode, decl, rctx, n, r, K, naccess):
     except AssertionError as e:
         import traceback
         last = traceback.extract_tb(e.__traceback__)[-1]
-        if last.filename.endswith("mode_wrapper.py") and last.name == "__init__":
+        if last.filename.endswith("mode_wrapper.py"):  # raised by ModeWrapper itself while constructing (any helper)
             return dict(id=tid, cfg=cfg, ev=[dict(a="refuse")])
         return dict(id=tid, cfg=cfg, ev=[dict(a="err", type="AssertionError")])
     except Exception as e:
